@@ -403,6 +403,16 @@ func (f *Frame) havocCall(st *State, pre *State, mods *ModSet, targets []*Assign
 		vc.fact(Ge(a, pre.alloc))
 		st.alloc = a
 		f.kindFacts(st, pre.alloc, mods)
+		// objects allocated by the callee: handed over by an owning callee,
+		// otherwise unreachable garbage from the caller's point of view
+		vc.registerComp("Mine", SArr(SInt, SBool))
+		mn := vc.get(st, "Mine")
+		r := Term{"r!q", SInt}
+		if owns {
+			vc.fact(Forall([]Term{r}, Imp(Ge(r, pre.alloc), Eq(Select(mn, r), Lt(r, st.alloc))), []Term{Select(mn, r)}))
+		} else {
+			vc.fact(Forall([]Term{r}, Imp(Ge(r, pre.alloc), Not(Select(mn, r))), []Term{Select(mn, r)}))
+		}
 	}
 	f.closedFacts(st, names)
 	if owns {
